@@ -429,6 +429,9 @@ def cli_matrix(tier):
             if os.path.isfile(full):
                 with open(full, encoding='utf-8') as f:
                     out['report'] = histsim.canon_report(f.read(), d)
+            if c['out'] == 'rel_symlink':
+                tgt = os.path.join(cwd, 'runs', 'r1.out')
+                out['link_ok'] = os.path.islink(full) and os.path.isfile(tgt) and histsim._file_sha(tgt) == histsim._file_sha(full)
             return out
 
         with ThreadPoolExecutor(max_workers=D.jobs()) as ex:
@@ -462,6 +465,9 @@ def cli_matrix(tier):
                     V(c, 'exit_status', 'cli_exit_0_although_the_report_could_not_be_written',
                       f"exit status 0 although no report could be written at {o['full']}")
                 continue
+            if c['req'] == 'ok' and c['out'] == 'rel_symlink' and o['rc'] == 0 and not o.get('link_ok', True):
+                V(c, 'wrong_output_path', 'cli_symlink_replaced', f"the output path {o['full']} is a symbolic link to runs/r1.out: after the run it is "
+                  'no longer a link, or the file it designates does not hold the report')
             if c['req'] == 'ok':
                 if o['rc'] != 0:
                     V(c, 'exit_status', f"cli_{c['out']}", f"exit status {o['rc']} for a succeeding run; stderr ...{o['stderr'][-160:]!r}")
